@@ -96,9 +96,39 @@ func (this *Conn) NodeChangesNotifications() <- chan *nodesChange {
 	this.notificationsMu.Lock()
 	defer this.notificationsMu.Unlock()
 
-	c := make(chan *nodesChange, 10)
-	this.notifications = append(this.notifications, c)
-	return c
+	in := make(chan *nodesChange)
+	out := make(chan *nodesChange, 10)
+	this.notifications = append(this.notifications, in)
+	go forwardNodesChanges(in, out)
+	return out
+}
+
+// Queues notifications between AddNode / RemoveNode, which send while holding the address lock,
+// and a subscriber that may be busy (or waiting for the sender): a send never waits for the subscriber
+func forwardNodesChanges(in <- chan *nodesChange, out chan <- *nodesChange) {
+	defer close(out)
+
+	queue := make([]*nodesChange, 0)
+	for {
+		if len(queue) == 0 {
+			n, ok := <- in
+			if !ok {
+				return
+			}
+			queue = append(queue, n)
+			continue
+		}
+
+		select {
+		case n, ok := <- in:
+			if !ok {
+				return
+			}
+			queue = append(queue, n)
+		case out <- queue[0]:
+			queue = queue[1:]
+		}
+	}
 }
 
 func (this *Conn) Nodes() map[uint64]string {
